@@ -22,22 +22,37 @@
       exec p t y fv = ROk [dxdt of every variable, declaration order].
     Proved: [C07_equiv_partial] -- the same for every L <> Jl and every model with at least one
     variable, every variable acted on by a reaction, no assignment-defined parameter (the
-    complement is exactly the recorded findings, each with a machine-checked witness below). *)
+    complement is exactly the recorded findings, each with a machine-checked witness below).
+
+    Two of those guards belong to defects with a proposed repair that is not yet in /repo
+    (fixes/C07-assigned-parameter-value.diff, fixes/C07-untouched-variable-zero.diff).  Which form
+    the tree has is the pair [C07_expected_ia], [C07_expected_untouched] of ExpectedFacts.v (hand
+    edited with the fix: commit, tools/c07_switch.py); [C07_facts ia ut] is the fact record as a
+    function of the two.  The guards of [C07_equiv_partial] are DISJUNCTIONS that the repaired
+    value makes void, so the statement is the strongest true one under either value; theorems
+    about ONE form of the code name its fact value explicitly ([C07_facts IaDropped ut], ...):
+    the [_refuted] ones describe the unrepaired form (and stay as regression theorems
+    afterwards), [C07_assigned_parameter_emitted] / [C07_untouched_variable_zero] the repaired. *)
 From Coq Require Import List NArith QArith.
-From Codegen Require Import Codegen CodegenSpec GenCodegenFacts CgInst CodegenProofs CgInstProofs.
+From Codegen Require Import Codegen CodegenSpec ExpectedFacts GenCodegenFacts CgInst CodegenProofs CgInstProofs.
 Import ListNotations.
 
 Theorem C07_facts_pinned :
   gen_codegen_facts =
   mkFacts (mkLF AsgName DsList RetBracket false) (mkLF AsgName DsList RetBracket false)
           (mkLF AsgName DsList RetBracket true) (mkLF AsgLitK DsSplat RetBare true)
-          OrdDep true true true true.
+          OrdDep true true true true C07_expected_ia C07_expected_untouched.
 Proof. vm_compute. reflexivity. Qed.
 Print Assumptions C07_facts_pinned.
 
 (** the generated Python / TypeScript / Rust function takes the variables in declaration order
-    and returns one derivative per variable in that order, equal to the model's right-hand side,
-    for every state, time and values of the free parameters *)
+    and returns one derivative per variable in that order, equal to the model's right-hand side
+    WITH THE FREE PARAMETERS SET TO THE INPUTS [fv] ([Resolved ... free fv ... e]: [map e free = fv],
+    and [dxdt] evaluates every computed coefficient in that same [e], so a free parameter that
+    only occurs in a computed coefficient is honoured), for every state, time and inputs.
+    Guards: a model with an assignment-defined parameter is covered iff the tree emits those
+    parameters; a model with a variable no reaction acts on is covered iff the tree writes the
+    explicit zero and some reaction acts on something *)
 Theorem C07_equiv_partial :
   forall (V : Type) (vzero : V) (vadd vmul : V -> V -> V)
          (isem : lang -> fnid -> list V -> option V) (translates : fnid -> bool)
@@ -48,12 +63,14 @@ Theorem C07_equiv_partial :
     L <> Jl ->
     generate V translates gen_codegen_facts L m order free = GOk p ->
     NoDup (map fst (m_par m)) ->
-    NoAssignedParams V m -> EveryVariableHasReaction V m -> m_var m <> [] ->
+    NoAssignedParams V m \/ C07_expected_ia = IaFrozen ->
+    EveryVariableHasReaction V m \/ (C07_expected_untouched = UtZero /\ HasEquation V m) ->
+    m_var m <> [] ->
     CoefArgsKnown V m -> ValidOrder V m order ->
     Resolved V fsem m free fv t y e ->
     exists ds, map_opt (dxdt V vzero vadd vmul fsem m e) (m_var m) = Some ds
                /\ exec V vzero vadd vmul isem gen_codegen_facts L p t y fv = ROk ds.
-Proof. exact (equiv_pinned gen_codegen_facts C07_facts_pinned). Qed.
+Proof. exact (equiv_pinned C07_expected_ia C07_expected_untouched gen_codegen_facts C07_facts_pinned). Qed.
 Print Assumptions C07_equiv_partial.
 
 (** generation succeeds (in all four languages) whenever every function translates and the free
@@ -65,7 +82,7 @@ Theorem C07_generates :
     (forall n f a st, In (n, (f, a, st)) (m_rxn m) ->
        translates f = true /\ forall x g ga, In (x, CDyn g ga) st -> translates g = true) ->
     exists p, generate V translates gen_codegen_facts L m order free = GOk p.
-Proof. exact (generates_pinned gen_codegen_facts C07_facts_pinned). Qed.
+Proof. exact (generates_pinned C07_expected_ia C07_expected_untouched gen_codegen_facts expected_ia_ok expected_ut_ok C07_facts_pinned). Qed.
 Print Assumptions C07_generates.
 
 (** a function that cannot be translated -- of a derived quantity, of a reaction or of a computed
@@ -78,7 +95,7 @@ Theorem C07_untranslatable_raises :
     \/ (exists n f a st, In (n, (f, a, st)) (m_rxn m) /\ translates f = false)
     \/ (exists n f a st x g ga, In (n, (f, a, st)) (m_rxn m) /\ In (x, CDyn g ga) st /\ translates g = false) ->
     forall p, generate V translates gen_codegen_facts L m order free <> GOk p.
-Proof. exact (untranslatable_pinned gen_codegen_facts C07_facts_pinned). Qed.
+Proof. exact (untranslatable_pinned C07_expected_ia C07_expected_untouched gen_codegen_facts C07_facts_pinned). Qed.
 Print Assumptions C07_untranslatable_raises.
 
 (** generation leaves the model's cached parameter dict alone: the same request a second time on
@@ -88,8 +105,43 @@ Theorem C07_second_request_same :
     cache_after V gen_codegen_facts m free = base_params V m
     /\ generate_again V translates gen_codegen_facts L m order free
        = generate V translates gen_codegen_facts L m order free.
-Proof. exact (again_pinned gen_codegen_facts C07_facts_pinned). Qed.
+Proof. exact (again_pinned C07_expected_ia C07_expected_untouched gen_codegen_facts C07_facts_pinned). Qed.
 Print Assumptions C07_second_request_same.
+
+(** a computed stoichiometric coefficient is emitted as the EXPRESSION over its argument names:
+    the line of the variable it acts on is a sum whose term for that reaction carries [CDyn g ga],
+    whatever the arguments are -- in particular when all of them are parameters, which the model's
+    cache stores as an evaluated NUMBER -- so a free parameter among them is read from the input *)
+Theorem C07_computed_coefficient_emitted_as_expression :
+  forall (V : Type) (translates : fnid -> bool) (L : lang) (m : cmodel V) (order free : list name)
+         (p : program V) (n : name) (f : fnid) (a : list name) (st : list (name * coef V))
+         (x : name) (g : fnid) (ga : list name),
+    generate V translates gen_codegen_facts L m order free = GOk p ->
+    In (n, (f, a, st)) (m_rxn m) -> In (x, CDyn g ga) st ->
+    exists ts, In (lhs_of (lf_of gen_codegen_facts L) (PD x), RSum ts) (g_body p)
+               /\ In (n, CDyn g ga) ts.
+Proof. exact (coef_expression_pinned gen_codegen_facts). Qed.
+Print Assumptions C07_computed_coefficient_emitted_as_expression.
+
+(** ... and the value follows: par n11 = 2, n12 = 3, rxn n14 = n13 {n13: n11 * n12}, n11 free.  For
+    EVERY input q, state y0 and time the Python / TypeScript / Rust function returns
+    (q * 3) * y0 -- the coefficient at the input, not 6 = its value at the stored n11 *)
+Theorem C07_free_parameter_reaches_computed_coefficient :
+  forall L, L <> Jl -> forall (q y0 t : Q),
+  exists p, generateQ gen_codegen_facts L w_freecoef [14%N] [11%N] = GOk p
+            /\ execQ gen_codegen_facts L p t [y0] [q] = ROk [0 + (q * 3) * y0].
+Proof. exact (free_coef_all_inputs C07_expected_ia C07_expected_untouched gen_codegen_facts expected_ia_ok expected_ut_ok C07_facts_pinned). Qed.
+Print Assumptions C07_free_parameter_reaches_computed_coefficient.
+
+(** regression witness (seeded change C07-1): reading the stoichiometries from the model's cache
+    ([freeze_par_coefs]: parameter-only coefficients as numbers) emits 6; called with n11 = 5 the
+    function returns 6 where the model returns 15 *)
+Theorem C07_cache_evaluated_coefficient_refuted :
+  exists p, generateQ gen_codegen_facts Py (freeze_par_coefs w_freecoef) [14%N] [11%N] = GOk p
+            /\ optlist_eqb (spec_rhs w_freecoef [14%N] [11%N] [5] 0 [1]) (Some [15]) = true
+            /\ outcome_eqb (execQ gen_codegen_facts Py p 0 [1] [5]) (ROk [6]) = true.
+Proof. exact (cache_evaluated_coefficient_refuted C07_expected_ia C07_expected_untouched gen_codegen_facts expected_ia_ok expected_ut_ok C07_facts_pinned). Qed.
+Print Assumptions C07_cache_evaluated_coefficient_refuted.
 
 (** ---- recorded findings (the code still behaves like this; known_findings.d/C07.json) ---- *)
 
@@ -101,24 +153,61 @@ Theorem C07_jl_template_refuted :
          (m : cmodel V) (order free : list name) (p : program V) (t : V) (y fv : list V),
     generate V translates gen_codegen_facts Jl m order free = GOk p -> m_var m <> [] ->
     exec V vzero vadd vmul isem gen_codegen_facts Jl p t y fv = RIllFormed.
-Proof. exact (jl_illformed_pinned gen_codegen_facts C07_facts_pinned). Qed.
+Proof. exact (jl_illformed_pinned C07_expected_ia C07_expected_untouched gen_codegen_facts C07_facts_pinned). Qed.
 Print Assumptions C07_jl_template_refuted.
 
-(** a variable without a reaction is dropped from the returned list: 1 value for 2 variables *)
+(** a variable without a reaction is dropped from the returned list: 1 value for 2 variables
+    (the generator WITHOUT the explicit zero, [UtDropped]: the tree while
+    [C07_expected_untouched = UtDropped], a regression theorem afterwards) *)
 Theorem C07_variable_without_reaction_refuted :
-  exists p, generateQ gen_codegen_facts Ts w_uncovered [14%N] [] = GOk p
+  forall ia, ia <> IaUnknown ->
+  exists p, generateQ (C07_facts ia UtDropped) Ts w_uncovered [14%N] [] = GOk p
             /\ optlist_eqb (spec_rhs w_uncovered [14%N] [] [] 0 [3; 5]) (Some [-6; 0]) = true
-            /\ outcome_eqb (execQ gen_codegen_facts Ts p 0 [3; 5] []) (ROk [-6]) = true.
-Proof. exact (uncovered_refuted gen_codegen_facts C07_facts_pinned). Qed.
+            /\ outcome_eqb (execQ (C07_facts ia UtDropped) Ts p 0 [3; 5] []) (ROk [-6]) = true.
+Proof. exact uncovered_refuted. Qed.
 Print Assumptions C07_variable_without_reaction_refuted.
 
-(** a parameter defined by an initial assignment is not emitted: the program reads an unbound name *)
+(** ... with the explicit zero ([UtZero], fixes/C07-untouched-variable-zero.diff) the same model
+    gives one derivative per variable, (-6, 0), in Python, TypeScript and Rust *)
+Theorem C07_untouched_variable_zero :
+  forall ia, ia <> IaUnknown -> forall L, L <> Jl ->
+  exists p, generateQ (C07_facts ia UtZero) L w_uncovered [14%N] [] = GOk p
+            /\ optlist_eqb (spec_rhs w_uncovered [14%N] [] [] 0 [3; 5]) (Some [-6; 0]) = true
+            /\ outcome_eqb (execQ (C07_facts ia UtZero) L p 0 [3; 5] []) (ROk [-6; 0]) = true.
+Proof. exact untouched_zero. Qed.
+Print Assumptions C07_untouched_variable_zero.
+
+(** variables but no reaction acting on anything: `[()]` -- not TypeScript; a list holding a tuple in
+    Python (under either value of the switchable facts: the goldens pin this text) *)
+Theorem C07_no_equation_refuted :
+  exists p, generateQ gen_codegen_facts Ts w_noeq [13%N] [] = GOk p
+            /\ optlist_eqb (spec_rhs w_noeq [13%N] [] [] 0 [3]) (Some [0]) = true
+            /\ execQ gen_codegen_facts Ts p 0 [3] [] = RIllFormed
+            /\ exists p', generateQ gen_codegen_facts Py w_noeq [13%N] [] = GOk p'
+                          /\ execQ gen_codegen_facts Py p' 0 [3] [] = RJunk.
+Proof. exact (noeq_refuted C07_expected_ia C07_expected_untouched gen_codegen_facts expected_ia_ok expected_ut_ok C07_facts_pinned). Qed.
+Print Assumptions C07_no_equation_refuted.
+
+(** a parameter defined by an initial assignment is not emitted: the program reads an unbound name
+    (the generator that emits get_parameter_values() only, [IaDropped]: the tree while
+    [C07_expected_ia = IaDropped], a regression theorem afterwards) *)
 Theorem C07_assigned_parameter_refuted :
-  exists p, generateQ gen_codegen_facts Py w_assigned [12%N; 14%N] [] = GOk p
+  forall ut, ut <> UtUnknown ->
+  exists p, generateQ (C07_facts IaDropped ut) Py w_assigned [12%N; 14%N] [] = GOk p
             /\ optlist_eqb (spec_rhs w_assigned [12%N; 14%N] [] [] 0 [3]) (Some [-12]) = true
-            /\ execQ gen_codegen_facts Py p 0 [3] [] = RErrUnbound.
-Proof. exact (assigned_refuted gen_codegen_facts C07_facts_pinned). Qed.
+            /\ execQ (C07_facts IaDropped ut) Py p 0 [3] [] = RErrUnbound.
+Proof. exact assigned_refuted. Qed.
 Print Assumptions C07_assigned_parameter_refuted.
+
+(** ... emitted with the value the model holds ([IaFrozen], fixes/C07-assigned-parameter-value.diff)
+    the same model gives the model's right-hand side in Python, TypeScript and Rust *)
+Theorem C07_assigned_parameter_emitted :
+  forall ut, ut <> UtUnknown -> forall L, L <> Jl ->
+  exists p, generateQ (C07_facts IaFrozen ut) L w_assigned [12%N; 14%N] [] = GOk p
+            /\ optlist_eqb (spec_rhs w_assigned [12%N; 14%N] [] [] 0 [3]) (Some [-12]) = true
+            /\ outcome_eqb (execQ (C07_facts IaFrozen ut) L p 0 [3] []) (ROk [-12]) = true.
+Proof. exact assigned_emitted. Qed.
+Print Assumptions C07_assigned_parameter_emitted.
 
 (** a model without variables returns `[()]`: not TypeScript; a list holding a tuple in Python *)
 Theorem C07_no_variables_refuted :
@@ -127,7 +216,7 @@ Theorem C07_no_variables_refuted :
             /\ execQ gen_codegen_facts Ts p 0 [] [] = RIllFormed
             /\ exists p', generateQ gen_codegen_facts Py w_novars [12%N] [] = GOk p'
                           /\ execQ gen_codegen_facts Py p' 0 [] [] = RJunk.
-Proof. exact (novars_refuted gen_codegen_facts C07_facts_pinned). Qed.
+Proof. exact (novars_refuted C07_expected_ia C07_expected_untouched gen_codegen_facts expected_ia_ok expected_ut_ok C07_facts_pinned). Qed.
 Print Assumptions C07_no_variables_refuted.
 
 (** ---- regression witnesses: with the facts of the snapshot (before fixes/C07-*.diff) the
@@ -138,12 +227,12 @@ Theorem C07_snapshot_declaration_order_refuted :
   exists p, generateQ
               (mkFacts (mkLF AsgName DsBare RetBare false) (mkLF AsgName DsList RetBracket false)
                        (mkLF AsgName DsList RetBracket true) (mkLF AsgLitK DsSplat RetBare true)
-                       OrdDecl false true true true) Ts w_model w_order [11%N] = GOk p
+                       OrdDecl false true true true IaDropped UtDropped) Ts w_model w_order [11%N] = GOk p
             /\ optlist_eqb (spec_rhs w_model w_order [11%N] [3] 1 [1; 2]) (Some [-32; 224]) = true
             /\ execQ
                  (mkFacts (mkLF AsgName DsBare RetBare false) (mkLF AsgName DsList RetBracket false)
                           (mkLF AsgName DsList RetBracket true) (mkLF AsgLitK DsSplat RetBare true)
-                          OrdDecl false true true true) Ts p 1 [1; 2] [3] = RErrUnbound.
+                          OrdDecl false true true true IaDropped UtDropped) Ts p 1 [1; 2] [3] = RErrUnbound.
 Proof. exact snapshot_declaration_order_refuted. Qed.
 Print Assumptions C07_snapshot_declaration_order_refuted.
 
@@ -152,15 +241,15 @@ Theorem C07_snapshot_cached_dict_refuted :
   (exists p, generateQ
                (mkFacts (mkLF AsgName DsBare RetBare false) (mkLF AsgName DsList RetBracket false)
                         (mkLF AsgName DsList RetBracket true) (mkLF AsgLitK DsSplat RetBare true)
-                        OrdDecl false true true true) Ts w_inorder [14%N; 15%N] [11%N] = GOk p)
+                        OrdDecl false true true true IaDropped UtDropped) Ts w_inorder [14%N; 15%N] [11%N] = GOk p)
   /\ cache_afterQ
        (mkFacts (mkLF AsgName DsBare RetBare false) (mkLF AsgName DsList RetBracket false)
                 (mkLF AsgName DsList RetBracket true) (mkLF AsgLitK DsSplat RetBare true)
-                OrdDecl false true true true) w_inorder [11%N] = []
+                OrdDecl false true true true IaDropped UtDropped) w_inorder [11%N] = []
   /\ generate_againQ
        (mkFacts (mkLF AsgName DsBare RetBare false) (mkLF AsgName DsList RetBracket false)
                 (mkLF AsgName DsList RetBracket true) (mkLF AsgLitK DsSplat RetBare true)
-                OrdDecl false true true true) Ts w_inorder [14%N; 15%N] [11%N] = GErrKey.
+                OrdDecl false true true true IaDropped UtDropped) Ts w_inorder [14%N; 15%N] [11%N] = GErrKey.
 Proof. exact snapshot_cached_dict_refuted. Qed.
 Print Assumptions C07_snapshot_cached_dict_refuted.
 
@@ -170,21 +259,21 @@ Theorem C07_snapshot_py_templates_refuted :
   (exists p, generateQ
                (mkFacts (mkLF AsgName DsBare RetBare false) (mkLF AsgName DsList RetBracket false)
                         (mkLF AsgName DsList RetBracket true) (mkLF AsgLitK DsSplat RetBare true)
-                        OrdDecl false true true true) Py w_onevar [13%N] [] = GOk p
+                        OrdDecl false true true true IaDropped UtDropped) Py w_onevar [13%N] [] = GOk p
              /\ optlist_eqb (spec_rhs w_onevar [13%N] [] [] 0 [3]) (Some [-6]) = true
              /\ execQ
                   (mkFacts (mkLF AsgName DsBare RetBare false) (mkLF AsgName DsList RetBracket false)
                            (mkLF AsgName DsList RetBracket true) (mkLF AsgLitK DsSplat RetBare true)
-                           OrdDecl false true true true) Py p 0 [3] [] = RErrVec)
+                           OrdDecl false true true true IaDropped UtDropped) Py p 0 [3] [] = RErrVec)
   /\ (exists p, generateQ
                   (mkFacts (mkLF AsgName DsBare RetBare false) (mkLF AsgName DsList RetBracket false)
                            (mkLF AsgName DsList RetBracket true) (mkLF AsgLitK DsSplat RetBare true)
-                           OrdDecl false true true true) Py w_twovars_one_eq [14%N] [] = GOk p
+                           OrdDecl false true true true IaDropped UtDropped) Py w_twovars_one_eq [14%N] [] = GOk p
                 /\ outcome_eqb
                      (execQ
                         (mkFacts (mkLF AsgName DsBare RetBare false) (mkLF AsgName DsList RetBracket false)
                                  (mkLF AsgName DsList RetBracket true) (mkLF AsgLitK DsSplat RetBare true)
-                                 OrdDecl false true true true) Py p 0 [3; 5] [])
+                                 OrdDecl false true true true IaDropped UtDropped) Py p 0 [3; 5] [])
                      (RScalar (-6)) = true).
 Proof. exact snapshot_py_templates_refuted. Qed.
 Print Assumptions C07_snapshot_py_templates_refuted.
@@ -201,5 +290,19 @@ Example C07_nonvacuous :
   /\ (forall L, L <> Jl -> exists p,
         generateQ gen_codegen_facts L w_model w_order [11%N] = GOk p
         /\ outcome_eqb (execQ gen_codegen_facts L p 1 [1; 2] [3]) (ROk [-32; 224]) = true).
-Proof. exact (nonvacuous gen_codegen_facts C07_facts_pinned). Qed.
+Proof. exact (nonvacuous C07_expected_ia C07_expected_untouched gen_codegen_facts expected_ia_ok expected_ut_ok C07_facts_pinned). Qed.
 Print Assumptions C07_nonvacuous.
+
+(** non-vacuity of the right-hand disjuncts of the two guards: a model WITH an assignment-defined
+    parameter AND a variable no reaction acts on meets every other hypothesis, and under the
+    repaired facts the three programs return (-12, 0) *)
+Example C07_nonvacuous_repaired :
+  NoDup (map fst (m_par w_both)) /\ ~ NoAssignedParams Q w_both
+  /\ ~ EveryVariableHasReaction Q w_both /\ HasEquation Q w_both /\ m_var w_both <> []
+  /\ CoefArgsKnown Q w_both /\ ValidOrder Q w_both [12%N; 15%N]
+  /\ Resolved Q fsemQ w_both [] [] 0 [3; 5] w_both_env
+  /\ (forall L, L <> Jl -> exists p,
+        generateQ (C07_facts IaFrozen UtZero) L w_both [12%N; 15%N] [] = GOk p
+        /\ outcome_eqb (execQ (C07_facts IaFrozen UtZero) L p 0 [3; 5] []) (ROk [-12; 0]) = true).
+Proof. exact nonvacuous_repaired. Qed.
+Print Assumptions C07_nonvacuous_repaired.
